@@ -321,6 +321,8 @@ def _generic_run(self, cspec, argvals):
         return data
     if kind == 'mem':
         return value
+    if kind == 'memobj':
+        return self.data_class(value)
     return value
 
 
@@ -384,7 +386,16 @@ def build_classes(world):
     for k in (PObj, PSub, PDef, PSet):
         k.__module__ = 'tcw.objs'
         setattr(om, k.__name__, k)
-    ret_types = {'int': int, 'float': float, 'str': str, 'bool': bool, 'dict': dict, 'list': list, 'ndarray': np.ndarray,
+    class MemBox(InMemoryData):
+        """user-defined in-memory data object; sized, hence falsy when empty"""
+        def __init__(self, payload=None):
+            super().__init__()
+            self.payload = [] if payload is None else payload
+
+        def __len__(self):
+            return len(self.payload)
+
+    ret_types = {'memobj': MemBox, 'int': int, 'float': float, 'str': str, 'bool': bool, 'dict': dict, 'list': list, 'ndarray': np.ndarray,
                  'frame': pd.DataFrame, 'series': pd.Series, 'gen': Generator, 'genlazy': Generator, 'dir': DirData,
                  'cont': ContinuesData, 'listnp': list, 'mem': dict}
     bases = {'Task': Task, 'ModuleTask': ModuleTask, 'DoubleModuleTask': DoubleModuleTask}
